@@ -271,9 +271,164 @@ def alloc_part(ctx):
     ctx.extra["allocation_failure_part"] = {"opens": tot, "cases_not_judged_because_the_open_crashed": crashed}
 
 
+# ---- the zck_read_header tool --------------------------------------------------------------------------------------
+HASH_NAMES = {0: "SHA-1", 1: "SHA-256", 2: "SHA-512", 3: "SHA-512/128"}
+TOOL_FLAGS = ("-c", "-q", "-f", "-v")
+
+
+def tool_files(ctx):
+    """small files of every tiny configuration (library- and reference-written, full and detached), headers with optional
+    elements, a file with a damaged chunk (for -f), and sealed headers the tool must refuse"""
+    import universe
+    from universe import Cfg
+    out = []
+    cfgs = universe.small_cfgs() + [Cfg(2, universe.DELTA_DICT, 1, 3, 3), Cfg(0, universe.DELTA_DICT, 1, 1, 2), Cfg(0, b"", 0, 0, 3)]
+    words = ["abc", "aab", ""] if ctx.deep else ["abc", ""]
+    specs = [(w, c) for c in cfgs for w in words]
+    for (w, c), lf in zip(specs, universe.lib_files(specs, ctx.seed)):
+        rf = universe.ref_file(w, c, ctx.seed)
+        out.append(("lib:%s:%s" % (w, c.name()), lf))
+        out.append(("ref:%s:%s" % (w, c.name()), rf))
+        out.append(("ref-detached:%s:%s" % (w, c.name()), universe.detach(rf)))
+        if w == "abc":
+            p = zckref.parse(rf)
+            off, ln = zckref.extents(p)[2]
+            x = bytearray(rf); x[off] ^= 0x10
+            out.append(("ref-damaged-chunk2:%s:%s" % (w, c.name()), bytes(x)))
+    for fl, oe in ((2, [(1, b"xyz")]), (6, [(0, b""), (7, b"q")])):
+        f, h, body = zckref.build_file(universe.word_pieces("ab", ctx.seed), comp=0, htype=1, ctype=3, flags=fl & 4)
+        h.flags = fl; h.optelems = oe
+        out.append(("ref-optelems:flags=%d" % fl, h.build() + body))
+    return out
+
+
+def parse_tool_output(text):
+    """-> (info dict, rows, table header seen, trailer lines); rows: list of tuples of the whitespace-separated fields"""
+    info, rows, flags, hdr, other = {}, [], [], None, []
+    for ln in text.split("\n"):
+        if not ln.strip():
+            continue
+        if ln.startswith("    Has "):
+            flags.append(ln.strip())
+        elif ": " in ln and not ln.startswith(" "):
+            k, v = ln.split(": ", 1)
+            info[k] = v.strip()
+        elif ln.strip().startswith("Chunk Checksum"):
+            hdr = ln
+        elif ln.split()[0].isdigit():
+            rows.append(ln.split())
+        else:
+            other.append(ln.strip())
+    info["_flags"] = flags
+    return info, rows, hdr, other
+
+
+def tool_expect(exp, p, f):
+    """what the tool's lines must say, from the reference parse"""
+    fl = []
+    if exp["flags"] & 1: fl.append("Has streams")
+    if exp["flags"] & 2: fl.append("Has optional header elements")
+    if exp["flags"] & 4: fl.append("Has uncompressed checksums")
+    info = {"Overall checksum type": HASH_NAMES[exp["fhtype"]], "Header size": str(exp["hlen"]), "Header checksum": exp["hdigest"],
+            "Data size": str(exp["dlen"]), "Data checksum": exp["ddigest"], "Chunk count": str(exp["count"]),
+            "Chunk checksum type": HASH_NAMES[exp["chtype"]]}
+    if exp["chunks"][0][4] or exp["chunks"][0][5]:
+        info["Dictionary"] = exp["chunks"][0][1]
+    rows = []
+    for (i, dg, udg, start, cs, sz, _v) in exp["chunks"]:
+        rows.append([str(i), dg] + ([udg] if exp["flags"] & 4 else []) + [str(start), str(cs), str(sz)])
+    return info, fl, rows
+
+
+def tool_work(part):
+    job = ["chunk 16", "timeout 20000"]
+    meta = []
+    for name, f in part:
+        job += ["clear", "file f.zck %s" % (f.hex() or "-")]
+        for k in range(1 << len(TOOL_FLAGS)):
+            args = [TOOL_FLAGS[i] for i in range(len(TOOL_FLAGS)) if k >> i & 1] + ["f.zck"]
+            job.append("case tool=zck_read_header args=%s" % ",".join(a.encode().hex() for a in args))
+            meta.append((name, f, args))
+    cs = core.drv("tool", "\n".join(job) + "\n", timeout=3000, env_extra={"VF_BLOB_MAX": "1000000"})
+    res = {"n": 0, "viol": [], "outcomes": set(), "tables": 0}
+    tables = {}
+    for c, (name, f, args) in zip(cs, meta):
+        res["n"] += 1
+        case = {"tool": True, "name": name, "file": f.hex(), "args": args}
+        l = c.first("L")
+        if not c.done or l is None or l["sig"] != "0":
+            res["viol"].append(({"check": "C13", "predicate": "zck_read_header-crashes", "args": " ".join(args[:-1])},
+                                "%s: zck_read_header %s: %s" % (name, " ".join(args), c.status()), case))
+            continue
+        exp, reason = expected(f)
+        text = core.unhex(l["stdout"]).decode("latin1")
+        rc = int(l["exit"])
+        res["outcomes"].add((rc, exp is not None, "-q" in args, "-c" in args))
+        if exp is None or exp["streams"]:
+            continue
+        p = zckref.parse(f)
+        damaged = name.startswith("ref-damaged")
+        if rc != 0 and not ("-f" in args and damaged):
+            res["viol"].append(({"check": "C13", "predicate": "zck_read_header-refuses-valid-file", "args": " ".join(args[:-1])},
+                                "%s: zck_read_header %s exits %d" % (name, " ".join(args), rc), case))
+            continue
+        info, rows, hdr, other = parse_tool_output(text)
+        einfo, eflags, erows = tool_expect(exp, p, f)
+        bad = None
+        if "-q" not in args:
+            for k, v in einfo.items():
+                if info.get(k) != v:
+                    bad = ("field", "%s: tool says %r, the file says %r" % (k, info.get(k), v))
+                    break
+            if not bad and info["_flags"] != eflags:
+                bad = ("flags", "flags: tool says %s, the file says %s" % (info["_flags"], eflags))
+            if not bad and ("Dictionary" in einfo) != ("Dictionary" in info):
+                bad = ("dictionary", "dictionary line: %s" % info.get("Dictionary"))
+        if not bad and "-c" in args:
+            res["tables"] += 1
+            got = [r[:len(er)] for r, er in zip(rows, erows)]
+            if len(rows) != len(erows):
+                bad = ("rows", "%d chunk rows, the file has %d chunks" % (len(rows), len(erows)))
+            elif got != erows:
+                k = next(i for i in range(len(erows)) if got[i] != erows[i])
+                bad = ("row", "chunk row %d: tool says %s, the file says %s" % (k, rows[k], erows[k]))
+            elif "-f" in args and not p.detached:
+                vm = zckref.valid_map(p, f)
+                marks = [r[len(er):] for r, er in zip(rows, erows)]
+                want = [["+"] if v == 1 else ["!"] for v in vm]
+                if p.flags & 4 == 0 and all(v == 1 for v in vm) and zckref.digest(p.htype, f[p.header_len:p.header_len + exp["dlen"]]) != p.data_digest:
+                    want = [["!"]] * len(vm)
+                if marks != want:
+                    bad = ("validity", "validity marks %s, reference %s" % (marks, want))
+            tables.setdefault((name, "-f" in args), {})["-q" in args, "-v" in args] = rows
+        elif not bad and rows:
+            bad = ("rows-without-c", "chunk rows printed without -c")
+        if bad:
+            res["viol"].append(({"check": "C13", "predicate": "zck_read_header-differs-from-file", "what": bad[0], "args": " ".join(args[:-1])},
+                                "%s: zck_read_header %s: %s" % (name, " ".join(args), bad[1]), case))
+    return res
+
+
+def tool_part(ctx):
+    files = tool_files(ctx)
+    n = 0
+    for r in core.pmap(tool_work, list(core.chunks(files, 4))):
+        n += r["n"]
+        ctx.states += r["n"]; ctx.evaluations += r["n"]; ctx.transitions += r["n"]
+        ctx.outcomes |= {("tool",) + o for o in r["outcomes"]}
+        ctx.extra["tool_chunk_tables_compared"] = ctx.extra.get("tool_chunk_tables_compared", 0) + r["tables"]
+        for sig, what, case in r["viol"]:
+            ctx.violation(sig, what, case)
+    ctx.bounds["zck_read_header"] = ("%d files (tiny configurations incl. both flags, dictionaries, all digest types; library- and reference-written, "
+                                     "detached, optional elements, one damaged chunk) x every subset of {-c, -q, -f, -v}: every printed field, flag line "
+                                     "and chunk row (number, checksum(s), start, stored size, size, validity mark) against the reference parser" % len(files))
+    ctx.extra["tool_runs"] = n
+
+
 def run(ctx):
     stability(ctx)
     alloc_part(ctx)
+    tool_part(ctx)
     sp = specs(ctx)
     ctx.rule = ("case = one sealed header (field tuple, mutation, padding); distinct by construction; non-trivial = header "
                 "with a size >= 2^31 or a re-sealed mutation")
@@ -311,6 +466,10 @@ def dec(j):
 
 
 def replay(case, quiet=True):
+    if case.get("tool"):
+        r = tool_work([(case["name"], bytes.fromhex(case["file"]))])
+        hit = [v for v in r["viol"] if v[2]["args"] == case["args"]]
+        return {"violated": bool(hit), "detail": [v[1] for v in hit][:2]}
     if case.get("alloc"):
         cs = core.drv("meta", "allocfail 1\nfile %s\n" % case["file"])
         a = cs[0].first("A")
